@@ -69,7 +69,7 @@ def relation(schema, parent, t):
 
 class OpGen:
     def __init__(self, d, schema, desc, *, max_depth=3, frag_p=0.5, directive_p=0.1, alias_p=0.25,
-                 var_p=0.5, mixins=None, lit_ctx="oplit", local_var_names=False, root_frag_reroll_p=0.7, root_family_p=0.0,
+                 var_p=0.5, mixins=None, lit_ctx="oplit", local_var_names=False, root_frag_reroll_p=0.7, root_family_p=0.0, root_only_spreads_p=0.15,
                  enums_in_fragments_only_p=0.0):
         # document-level mode: operations select no enum leaves themselves, fragments prefer them - every enum of the
         # results is then reachable through fragments only
@@ -89,6 +89,7 @@ class OpGen:
         self.local_var_names = local_var_names
         self.root_frag_reroll_p = root_frag_reroll_p
         self.root_family_p = root_family_p
+        self.root_only_spreads_p = root_only_spreads_p  # operation root selections that (almost) only spread fragments
         self.fragments = {}  # name -> {"type": str, "text": str, "keys": {canon: sig}, "deps": set, "inline": bool}
         self.frag_order = []
         self.frag_use = {}
@@ -235,7 +236,7 @@ class OpGen:
             d.tag("op.abstract_position")
         names = list(fields)
         k = d.int(1, 4) if names else 0
-        if names and self.fragments and d.bool(0.15) and any(
+        if names and self.fragments and d.bool(self.root_only_spreads_p if depth == 0 and in_fragment is None else 0.15) and any(
                 self.fragments[f]["type"] == parent.name for f in self.frag_order if f != in_fragment):
             k = d.int(0, 1)  # a selection set that (almost) only spreads fragments
         chosen = d.sample(names, k) if names else []
